@@ -196,6 +196,11 @@ func (s *Stream) reset() {
 func (s *Stream) readBuf() []byte {
 	if s.filledBuffer {
 		s.bufSize *= 2
+		// the window can be longer than what was read into it: an ill-formed
+		// byte of a string is replaced by the three bytes of U+FFFD where it stands
+		for s.bufSize < int64(len(s.buf)) {
+			s.bufSize *= 2
+		}
 		remainBuf := s.buf
 		s.buf = make([]byte, s.bufSize)
 		copy(s.buf, remainBuf)
